@@ -192,10 +192,22 @@ def check_wildcard_binding(prog, rep, rule, en):
                 c_ok, why = False, "counter is not incremented by exactly one"
     rep.check(c_ok, rule, "extend/counter", where, "counter[key] = previous + 1 (1 when absent), same key as the cache entry", why)
     dsets = [x for x in sites if x.kind == "mcall" and x.name == "insert" and q.place_is(x.args[0], selfp, "domain_raw_sets")]
-    good = len(dsets) == 1 and bool(over(dsets[0], doms))
-    if good:
+    dext = [x for x in sites if x.kind == "mcall" and x.name == "extend" and q.place_is(x.args[0], selfp, "domain_raw_sets")]
+    good = False
+    if len(dsets) == 1 and not dext and over(dsets[0], doms):
         e2 = over(dsets[0], doms)[0]
         good = dsets[0].args[1] == ("tproj", e2, 0) and dsets[0].args[2] == ("tproj", e2, 1)
+    elif len(dext) == 1 and not dsets:
+        import effects
+        pr = effects.as_pairs(nz(dext[0].args[1]))
+        if pr is not None:
+            src, cond, k, v = pr
+            root = src
+            while root[0] == "call" and len(root[2]) == 1 and root[1].rsplit("::", 1)[-1] in ("iter", "into_iter", "clone"):
+                root = root[2][0]
+            good = root == doms and cond == ("lit", True) and k[0] == "tproj" and str(k[2]) == "0" and k[1][0] == "elem" and v == ("tproj", k[1], 1) \
+                and norm.strip_adapters(k[1][1]) in (src, root)
+        dsets = dext
     rep.check(good, rule, "extend/domain-entry", dsets[0].where() if dsets else where,
               "domain_raw_sets[label] = context set for every label of the domain context", "domain sets are not installed under their own label")
     # the terminal is only ever served from the cache: the only feasible paths for the shape are cache hits
